@@ -211,7 +211,7 @@ def run(ctx):
         for i, rnd in ctx.cases("engines", nengines):
             for d in ([decs[i % 9], decs[(i * 5 + 3) % 9]] if not ctx.thorough else [decs[i % 9]]):
                 with fl.settings.context(decimals=d):
-                    spec = E.gen_engine(rnd, activations=tuple(c08.METHODS), d=d, descriptions=True, infinite=True, max_rules=4)
+                    spec = E.gen_engine(rnd, activations=tuple(c08.METHODS), d=d, descriptions=True, infinite=True, max_rules=4, reversed_bounds=True)
                     spec["description"] = rnd.choice(["", "an engine: demo", "tab\tinside"])
                     if rnd.random() < 0.5:
                         spec = E.exotic(rnd, spec)
